@@ -1344,7 +1344,7 @@ def c09_lead(ctx, n):
     def on_path(e, nm, out):
         k, ob = out
         if k != "return":
-            ctx.fail("lead construction fails: %s" % (ob,), "Lead::new", kind="c09", name=model_bytes(e, nm).hex())
+            ctx.fail("lead construction fails: %s" % (ob,), "Lead::new", kind="c09lead", name=model_bytes(e, nm).hex())
             return
         ctx.cover("lead built", True)
         m = min(n, 65)
@@ -1353,7 +1353,7 @@ def c09_lead(ctx, n):
         good = len(ob) == 96 and not e._check(z3.Not(z3.And([ob[i] == want[i] for i in range(8)] + [ob[10 + i] == nm[i] for i in range(m)]
                                                            + [ob[10 + i] == 0 for i in range(m, 66)] + [ob[78] == 0, ob[79] == 5])))
         if not good:
-            ctx.fail("lead is not a valid rpm lead (magic, major 3, type 0, NUL-terminated name within 66 bytes, signature type 5)", "Lead::new", kind="c09", name=model_bytes(e, nm).hex())
+            ctx.fail("lead is not a valid rpm lead (magic, major 3, type 0, NUL-terminated name within 66 bytes, signature type 5)", "Lead::new", kind="c09lead", name=model_bytes(e, nm).hex())
     ex.run_all(lambda e: sym_bytes(e, "n", n, 1, 0x7f), body, on_path)
 
 
